@@ -141,7 +141,7 @@ PROGFUZZ = {
               "duplicates; serial and ascent_par! (pools 1,2,3,4,8,16 with seeded perturbation). Oracle on the dumped rows: the row "
               "multiset of every relation = multiset(input rows) + set(reference result minus input); one row per lattice key; no input "
               "row lost. The same row check runs inside every other progfuzz property. Non-trivial: >= 1 tuple derived twice within a "
-              "round or re-derived in a later round (or already an input); distinct (program text, input) pairs."),
+              "round or re-derived in a later round (or already an input); distinct (program text, input) pairs. Every third program also has a member with #![inter_rule_parallelism]."),
         assumptions=["thread interleavings are sampled, not enumerated", "rustc compiles the generated crate faithfully", "the reference evaluator is correct"],
     ),
     "C13": dict(
@@ -169,7 +169,7 @@ PROGFUZZ = {
               "false with a sound partial state (every tuple in the reference fixed point, every lattice value <= the final one), "
               "and a resuming run() / run_timeout must reach exactly the reference fixed point with no duplicate rows; plus 4 "
               "sequences of 2-4 repeated interruptions per case. evaluations = interrupted runs. A crash point is non-trivial when "
-              "the partial state holds derived tuples but not yet the whole fixed point; distinct (program, input, point)."),
+              "the partial state holds derived tuples but not yet the whole fixed point; distinct (program, input, point). Every sixth program is built around a BYODS relation (serial)."),
         assumptions=["the deadline can only be observed where the generated code evaluates __check_return_conditions! (the hook counts exactly those places)",
                      "BYODS relations are not part of these programs", "rustc compiles the generated crate faithfully", "the reference evaluator is correct"],
     ),
@@ -249,12 +249,13 @@ PROGFUZZ = {
               "ascent!, ascent_par! and ascent_run!, `relation r(..) = expr` in ascent! / ascent_par! (initialiser evaluated in "
               "Default), an earlier decoy declaration of an initialised relation with different rows (the later declaration must "
               "win), #![measure_rule_times] (serial; parallel together with inter_rule_parallelism), #![generate_run_timeout] with "
-              "run(). Oracle: every variant equals the reference result of the base (sets, lattice values, row multisets). The whole "
+              "run(), a struct signature with a type parameter and a where clause (serial, parallel, across an include); every sixth "
+              "base has in-program macros with includes cut between declarations, macro definitions and rules. Oracle: every variant equals the reference result of the base (sets, lattice values, row multisets). The whole "
               "batch is additionally built and run a second time with ascent's segment-codegen cargo feature. Non-trivial: a looping "
               "stratum with >= 2 productive rounds and >= 1 derived tuple; distinct (program text, input) pairs."),
         build_configs=[dict(), dict(VERIF_ASCENT_FEATURES="segment-codegen")],
         assumptions=["rustc compiles the generated crate faithfully", "the reference evaluator is correct",
-                     "a generic struct signature is not exercised by this check (see DESIGN.md)"],
+                     "the generic struct signature is exercised through one type parameter used by an extra pair of relations (rules with constants cannot be printed generically)"],
     ),
     "C10": dict(
         quick=dict(programs=90, cases=25), thorough=dict(programs=1000, cases=100),
